@@ -76,7 +76,7 @@ def _run(prop, tier, seed, jobs, own, design, replay, rule, assumptions, signatu
             args += ['--only', str(replay['b'])]
         else:
             args += ['--shard', str(sh), '--nshards', str(job.get('shards', common.NPROC))]
-        stats = json.loads(common.run_py(args).strip().splitlines()[-1])
+        stats = json.loads(common.run_py(args, optimize=(sh is not None and sh % 2 == 1)).strip().splitlines()[-1])
         if stats['events'] == 0:
             return job, stats, [], {'distinct': 0, 'generated': 0}, out
         mism, consumed, r = common.validate_trace(job['module'], job['cfg'], out, work,
